@@ -137,6 +137,12 @@ func (c *coordinatedBlockProposals) getLatestQuorumBlock() (ocr2keepers.BlockKey
 	)
 
 	for block, count := range c.recentBlocks {
+		if block.Hash == zeroHash {
+			// the zero hash marks "no block selected yet" below: such a block can
+			// never be returned, and letting it become mostRecent would make the
+			// result depend on map iteration order
+			continue
+		}
 		if count >= int(c.quorumBlockthreshold) {
 			if (mostRecent.Hash == zeroHash) || // First consensus hash
 				(block.Number > mostRecent.Number) || // later height
